@@ -173,6 +173,9 @@ class Codec:
         # at a minimum we require BeginString, BodyLength & Checksum
         if len(msg) < 3:
             assert silent, "Minimum message"
+            if next_msg < len(rawmsg) - valid_idx:
+                # next message starts already, this one will never be completed
+                return (None, valid_idx + next_msg, None)
             return (None, parsed_length, None)
 
         tag, value = msg[0].split("=", 1)
